@@ -5,29 +5,69 @@
  *    Reference counting / deallocation of maps is not modelled (maps are never freed).  These are the same facts the
  *    constraint layer assumes as contracts (contracts.c PART 0); here they are executable so that the expression
  *    layer runs the REAL flat_map code on concrete objects.
- * 2. boost::container::new_allocator<pair<variable,z_number>>::allocate(n): `operator new(n * sizeof(pair))`,
- *    case-split on n so that every term array is an object of CONSTANT size (exact bounds checking, no byte-array
- *    encoding).  BOUNDED: n <= LE_MAXCAP is an obligation, not an assumption. */
+ * 2. Boost's flat_map (third-party code, not part of crab): the four entry points of boost::container that
+ *    linear_expression calls on its term container -- flat_tree::find(key), flat_tree::insert_unique(pair&&),
+ *    vector::erase(iterator), flat_tree::Data::operator=(const Data&) (copy assignment) -- are a REFERENCE
+ *    IMPLEMENTATION of a sorted array map with unique keys, ordered by the REAL crab::variable::operator<.
+ *    (The real Boost code was tried first: CBMC does not get through its insertion path even for 2 terms.)
+ *    Term arrays are objects of LE_MAXCAP elements (capacity is not observable by linear_expression);
+ *    BOUNDED: "at most LE_MAXCAP terms" is an obligation of every insertion / copy, not an assumption.
+ *    Elements are moved / copied bitwise: for pair<variable, z_number> (a v-table pointer, a name object, a type
+ *    and, in the model, an integer) that is what the copy / move constructors do. */
 #include <stdlib.h>
+void *_Znwm(unsigned long);   /* operator new of models/rt.c: malloc that does not fail */
 #include "unit_types.h"
 typedef struct S_class_std__shared_ptr SPT;
 typedef struct S_class_boost__container__flat_map FM;
 typedef struct S_struct_boost__container__dtl__pair PR;
+typedef struct S_class_crab__variable VAR;
+typedef struct S_class_boost__container__dtl__flat_tree FT;
+typedef struct S_class_boost__container__vector VEC;
+typedef struct S_struct_boost__container__vector_alloc_holder HOLD;   /* { f0 = start, f1 = size, f2 = capacity } */
+typedef struct S_class_boost__container__vec_iterator_49 IT;           /* iterator: { pointer } */
+typedef struct S_class_boost__container__vec_iterator_50 CIT;          /* const_iterator */
+typedef struct S_struct_std__pair_51 ITB;                               /* std::pair<iterator, bool> */
+unsigned char _ZNK4crab8variableIN4ikos8z_numberE2VNEltERKS4_(VAR *, VAR *);   /* the real crab::variable::operator< */
+#define LT(a, b) (_ZNK4crab8variableIN4ikos8z_numberE2VNEltERKS4_(a, b) != 0)
 #define LE_MAXCAP 8
 void _ZSt11make_sharedIN5boost9container8flat_mapIN4crab8variableIN4ikos8z_numberE2VNEES6_St4lessIS8_EvEEJEESt10shared_ptrINSt9enable_ifIXntsr8is_arrayIT_EE5valueESE_E4typeEEDpOT0_(SPT *ret){
-  FM *m = malloc(sizeof(FM));
+  FM *m = (FM *)_Znwm(sizeof(FM));
   m->f0.f0.f0.f0.f0 = 0; m->f0.f0.f0.f0.f1 = 0; m->f0.f0.f0.f0.f2 = 0;   /* flat_map(): start = null, size = 0, capacity = 0 */
   ret->f0.f0 = m; ret->f0.f1.f0 = 0; }
 void _ZNSt10shared_ptrIN5boost9container8flat_mapIN4crab8variableIN4ikos8z_numberE2VNEES6_St4lessIS8_EvEEEC2ERKSC_(SPT *self, SPT *o){ self->f0.f0 = o->f0.f0; self->f0.f1.f0 = o->f0.f1.f0; }
 void _ZNSt10shared_ptrIN5boost9container8flat_mapIN4crab8variableIN4ikos8z_numberE2VNEES6_St4lessIS8_EvEEED2Ev(SPT *self){}
-PR *_ZN5boost9container13new_allocatorINS0_3dtl4pairIN4crab8variableIN4ikos8z_numberE2VNEES7_EEE8allocateEm(void *self, uint64_t n){
-  __CPROVER_assert(n >= 1 && n <= LE_MAXCAP, "bounded model: a term array of 1..8 terms is allocated");
-  if (n == 1) return malloc(1 * sizeof(PR));
-  if (n == 2) return malloc(2 * sizeof(PR));
-  if (n == 3) return malloc(3 * sizeof(PR));
-  if (n == 4) return malloc(4 * sizeof(PR));
-  if (n == 5) return malloc(5 * sizeof(PR));
-  if (n == 6) return malloc(6 * sizeof(PR));
-  if (n == 7) return malloc(7 * sizeof(PR));
-  if (n == 8) return malloc(8 * sizeof(PR));
-  __CPROVER_assume(0); return 0; }
+/* index of the first element whose key is not less than k */
+static uint64_t lower_bound(HOLD *h, VAR *k){ uint64_t i = 0; while (i < h->f1 && LT(&h->f0[i].f0, k)) i++; return i; }
+/* room for n elements */
+static void reserve(HOLD *h, uint64_t n){
+  __CPROVER_assert(n <= LE_MAXCAP, "bounded model: a term container holds at most 8 terms");
+  if (n <= h->f2) return;
+  PR *s = (PR *)_Znwm(LE_MAXCAP * sizeof(PR));
+  for (uint64_t i = 0; i < h->f1; i++) s[i] = h->f0[i];
+  h->f0 = s; h->f2 = LE_MAXCAP; }
+/* flat_tree::find(const key_type &) */
+void _ZN5boost9container3dtl9flat_treeINS1_4pairIN4crab8variableIN4ikos8z_numberE2VNEES7_EENS1_9select1stIS9_EESt4lessIS9_ENS0_13new_allocatorISA_EEE4findERKS9_(IT *ret, FT *self, VAR *k){
+  HOLD *h = &self->f0.f0.f0; uint64_t i = lower_bound(h, k);
+  ret->f0 = h->f0 + ((i < h->f1 && !LT(k, &h->f0[i].f0)) ? i : h->f1); }
+/* flat_tree::insert_unique(value_type &&): (position, inserted?) */
+void _ZN5boost9container3dtl9flat_treeINS1_4pairIN4crab8variableIN4ikos8z_numberE2VNEES7_EENS1_9select1stIS9_EESt4lessIS9_ENS0_13new_allocatorISA_EEE13insert_uniqueEOSA_(ITB *ret, FT *self, PR *val){
+  HOLD *h = &self->f0.f0.f0; uint64_t i = lower_bound(h, &val->f0);
+  if (i < h->f1 && !LT(&val->f0, &h->f0[i].f0)) { ret->f0.f0 = h->f0 + i; ret->f1 = 0; return; }
+  reserve(h, h->f1 + 1);
+  for (uint64_t j = h->f1; j > i; j--) h->f0[j] = h->f0[j - 1];
+  h->f0[i] = *val; h->f1 = h->f1 + 1;
+  ret->f0.f0 = h->f0 + i; ret->f1 = 1; }
+/* vector::erase(const_iterator): iterator to the element after the erased one */
+void _ZN5boost9container6vectorINS0_3dtl4pairIN4crab8variableIN4ikos8z_numberE2VNEES7_EENS0_13new_allocatorISA_EEvE5eraseENS0_12vec_iteratorIPSA_Lb1EEE(IT *ret, VEC *self, CIT *pos){
+  HOLD *h = &self->f0; uint64_t i = (uint64_t)(pos->f0 - h->f0);
+  __CPROVER_assert(i < h->f1, "erase: the iterator points to an element");
+  for (uint64_t j = i; j + 1 < h->f1; j++) h->f0[j] = h->f0[j + 1];
+  h->f1 = h->f1 - 1; ret->f0 = h->f0 + i; }
+/* flat_tree::Data::operator=(const Data &): copy assignment of the sequence */
+#define DATA struct S_struct_boost__container__dtl__flat_tree_boost__container__dtl__pair_crab__variable_ikos__z_number__VN___ikos__z_number___boost__container__dtl__select1st_crab__variable_ikos__z_number__VN____std__less_crab__variable_ikos__z_number__VN____boost__container__new_allocator_boost__container__dtl__pair_crab__variable_ikos__z_number__VN___ikos__z_number_____Data
+DATA *_ZN5boost9container3dtl9flat_treeINS1_4pairIN4crab8variableIN4ikos8z_numberE2VNEES7_EENS1_9select1stIS9_EESt4lessIS9_ENS0_13new_allocatorISA_EEE4DataaSERKSI_(DATA *self, DATA *o){
+  HOLD *h = &self->f0.f0, *g = &o->f0.f0;
+  if (h == g) return self;
+  reserve(h, g->f1);
+  for (uint64_t i = 0; i < g->f1; i++) h->f0[i] = g->f0[i];
+  h->f1 = g->f1; return self; }
